@@ -60,9 +60,35 @@ impl Edns {
         ensures final(self).rcode_high == rcode_high, final(self).max_payload == old(self).max_payload, final(self).vp_rest == old(self).vp_rest
     { self.rcode_high = rcode_high; }
 }
-pub struct RData;
-pub struct TSIG;
-pub struct Record<R = RData> { pub vp_opt_rcode_high: u8, pub vp_r: core::marker::PhantomData<R>, pub vp_id: u64 }
+// record-level stand-ins: Name / RecordType / DNSClass / RDATA are BinEncodable values whose own emitters
+// are NOT extracted here (only the trait-level contract is assumed for them); Record::emit IS extracted
+pub struct Name { pub vp: u64 }
+#[derive(Clone, Copy)] pub struct RecordType(pub u16);
+#[derive(Clone, Copy)] pub struct DNSClass(pub u16);
+pub struct RData { pub vp: u64 }
+pub struct TSIG { pub vp: u64 }
+impl BinEncodable for Name { #[verifier::external_body] fn emit(&self, encoder: &mut BinEncoder<'_>) -> (r: ProtoResult<()>) { unimplemented!() } }
+impl BinEncodable for RecordType { #[verifier::external_body] fn emit(&self, encoder: &mut BinEncoder<'_>) -> (r: ProtoResult<()>) { unimplemented!() } }
+impl BinEncodable for DNSClass { #[verifier::external_body] fn emit(&self, encoder: &mut BinEncoder<'_>) -> (r: ProtoResult<()>) { unimplemented!() } }
+impl BinEncodable for RData { #[verifier::external_body] fn emit(&self, encoder: &mut BinEncoder<'_>) -> (r: ProtoResult<()>) { unimplemented!() } }
+impl BinEncodable for TSIG { #[verifier::external_body] fn emit(&self, encoder: &mut BinEncoder<'_>) -> (r: ProtoResult<()>) { unimplemented!() } }
+// interface of record_data.rs::RecordData as far as Record::emit uses it
+pub trait RecordData: BinEncodable + Sized {
+    fn record_type(&self) -> RecordType;
+    fn is_update(&self) -> bool;
+}
+impl RecordData for RData {
+    #[verifier::external_body] fn record_type(&self) -> RecordType { unimplemented!() }
+    #[verifier::external_body] fn is_update(&self) -> bool { unimplemented!() }
+}
+impl RecordData for TSIG {
+    #[verifier::external_body] fn record_type(&self) -> RecordType { unimplemented!() }
+    #[verifier::external_body] fn is_update(&self) -> bool { unimplemented!() }
+}
+pub struct Record<R: RecordData = RData> { pub name: Name, pub dns_class: DNSClass, pub ttl: u32, pub data: R }
+impl<R: RecordData> Record<R> {
+    pub fn record_type(&self) -> RecordType { self.data.record_type() }
+}
 // assumed contract of `impl From<&Edns> for Record` (edns.rs): the OPT pseudo-record carries the
 // extended RCODE in the top 8 bits of its TTL field
 impl vstd::std_specs::convert::FromSpecImpl<&Edns> for Record<RData> {
@@ -71,12 +97,22 @@ impl vstd::std_specs::convert::FromSpecImpl<&Edns> for Record<RData> {
 }
 impl<'x> From<&'x Edns> for Record<RData> {
     #[verifier::external_body]
-    fn from(value: &'x Edns) -> (r: Self) ensures r.vp_opt_rcode_high == value.rcode_high { unimplemented!() }
+    fn from(value: &'x Edns) -> (r: Self) ensures (r.ttl >> 24) as u8 == value.rcode_high { unimplemented!() }
 }
-// every record type is a BinEncodable (trait-level contract only; Record::emit itself is not extracted here)
-impl<R> BinEncodable for Record<R> {
-    #[verifier::external_body]
-    fn emit(&self, encoder: &mut BinEncoder<'_>) -> (r: ProtoResult<()>) { unimplemented!() }
+// ---- Record::emit (record.rs): owner, type, class, ttl, RDLENGTH placeholder, RDATA, back-patch ----
+// proved against the trait-level contract (so emit_iter may rely on it for every record) plus: the two
+// octets of RDLENGTH hold exactly the number of octets the RDATA emitter wrote (C02)
+impl<R: RecordData> BinEncodable for Record<R> {
+//%fn crates/proto/src/rr/record.rs :: impl<R: RecordData> BinEncodable for Record<R> :: emit
+//%sub1 "encoder.place::<u16>()?" => "encoder.place_u16()?" # R-mono: call of the T = u16 instantiation
+//%sub1 "encoder.len_since_place(&place)" => "encoder.len_since_place_u16(&place)" # R-mono
+//%contract
+        ensures old(encoder).tight() && r is Ok ==> exists|p: int| old(encoder).offset <= p && p + 2 <= final(encoder).offset
+            && be16(#[trigger] final(encoder).bytes()[p], final(encoder).bytes()[p + 1]) == final(encoder).offset - p - 2,
+//%before "Ok(())"
+        proof { let p = place.start_index as int; assert(be16(encoder.bytes()[p], encoder.bytes()[p + 1]) == encoder.offset - p - 2); }
+//%mutant rdlength_not_patched "place.replace(encoder, len as u16)?;" => ""
+//%end
 }
 // assumed facts about std: a one-element array yields one item
 #[verifier::external_body]
@@ -103,9 +139,9 @@ pub fn vp_u16_try_from(n: usize) -> (r: Result<u16, ()>)
 // question/record occupies at least one octet), needed only to rule out u16 overflow of the counts.
 pub trait EmitAndCount {
     fn emit(&mut self, encoder: &mut BinEncoder<'_>) -> (r: ProtoResult<usize>)
-        requires old(encoder).wf()
+        requires old(encoder).wf(), old(encoder).tight()
         ensures final(encoder).wf(), final(encoder).max() == old(encoder).max(),
-            (r is Ok || r matches Err(ProtoError::NotAllRecordsWritten { .. })) ==> final(encoder).offset >= old(encoder).offset && (old(encoder).tight() ==> final(encoder).tight()),
+            (r is Ok || r matches Err(ProtoError::NotAllRecordsWritten { .. })) ==> final(encoder).offset >= old(encoder).offset && final(encoder).tight(),
             forall|i: int| 0 <= i < old(encoder).offset ==> final(encoder).bytes()[i] == old(encoder).bytes()[i],
             r matches Ok(n) ==> old(encoder).offset + n <= final(encoder).offset,
             r matches Err(ProtoError::NotAllRecordsWritten { count }) ==> old(encoder).offset + count <= final(encoder).offset;
@@ -143,7 +179,7 @@ pub trait EmitAndCount {
 //%before "let count = count_was_truncated(encoder.emit_iter([&Record::from(&edns)]))?;"
         let vp_rec = Record::from(&edns);
         // C02: the OPT record that is written carries exactly the high bits of THIS message's rcode
-        assert(vp_rec.vp_opt_rcode_high as int == (rcode_val(metadata.response_code) & 0x0FF0) >> 4);
+        assert(((vp_rec.ttl >> 24) as u8) as int == (rcode_val(metadata.response_code) & 0x0FF0) >> 4);
         proof { axiom_items_array1::<&Record<RData>>(); }
 //%sub1 "encoder.emit_iter([&Record::from(&edns)])" => "encoder.emit_iter([&vp_rec])" # R-tail: the temporary is let-bound one line earlier so that a proof block can name it
 //%before "} else if metadata.response_code.high() > 0"
